@@ -557,6 +557,10 @@ impl<R: Records, R2: Records, T: AsSingleTargets<Elem = bool>, T2: AsSingleTarge
     }
 }
 
+#[cfg(linfa_verif)]
+#[path = "verif_hooks_c05.rs"]
+pub mod verif_hooks_c05;
+
 #[cfg(test)]
 mod tests {
     use super::{BinaryClassification, ConfusionMatrix, ToConfusionMatrix};
